@@ -162,4 +162,172 @@ theorem nonfinite_refused (K : Cx) (h : ∃ v ∈ K.verts, v.pt = none) : checkL
 example : loop 3 2 (fun _ => some 2) 100 ⟨1, 0, 0⟩ = .nonConvergent ⟨5, 4, 4⟩ := by decide
 example : loop 3 2 (fun i => if i < 2 then some 1 else none) 100 ⟨2, 0, 0⟩ = .done ⟨0, 2, 4⟩ := by decide
 
+/-! ### The work bound of the correspondence check really is implied by the budgets -/
+
+/-- iterations of one whole attempt started on a queue of `q0` items with `fuelFor` fuel (which is
+enough: `loop_never_out_of_fuel`) are bounded linearly in `q0` and `maxFlips`, whatever the
+predicates (`choice`) do.  Direct corollary of `loop_iters_bounded`; the trailing `+ 1` is the
+spare unit of `fuelFor`, removed in `attempt_iters_le_sharp`. -/
+theorem attempt_iters_le (maxFlips E q0 : Nat) (choice : Nat → Option Nat) :
+    (finalSt (loop maxFlips E choice (fuelFor maxFlips E ⟨q0, 0, 0⟩) ⟨q0, 0, 0⟩)).iters
+      ≤ q0 + (maxFlips + 1) * (E + 1) + 1 := by
+  have h := loop_iters_bounded maxFlips E choice (fuelFor maxFlips E ⟨q0, 0, 0⟩) ⟨q0, 0, 0⟩
+  simp only [fuelFor, Nat.sub_zero, Nat.zero_add] at h ⊢
+  exact h
+
+/-- the potential `iters + queue` grows by at most `E` per flip and not at all otherwise: at every
+final state `iters + queue ≤ iters₀ + queue₀ + (flips − flips₀)·E` (written without subtraction),
+for ANY fuel -/
+theorem loop_iters_queue_potential (maxFlips E : Nat) (choice : Nat → Option Nat) (fuel : Nat)
+    (s : LoopSt) :
+    (finalSt (loop maxFlips E choice fuel s)).iters + (finalSt (loop maxFlips E choice fuel s)).queue
+        + s.flips * E
+      ≤ s.iters + s.queue + (finalSt (loop maxFlips E choice fuel s)).flips * E := by
+  induction fuel generalizing s with
+  | zero => simp [loop, finalSt]
+  | succ f ih =>
+    unfold loop
+    split
+    · simp [finalSt]
+    · rename_i hq
+      have hq' : s.queue ≠ 0 := by simpa using hq
+      split
+      · have := ih { queue := s.queue - 1, flips := s.flips, iters := s.iters + 1 }
+        simp only at this; omega
+      · rename_i e _
+        have hmin : min e E ≤ E := Nat.min_le_right e E
+        have hmul : (s.flips + 1) * E = s.flips * E + E := by rw [Nat.add_mul, Nat.one_mul]
+        simp only
+        split
+        · simp only [finalSt]; omega
+        · have := ih { queue := s.queue - 1 + min e E, flips := s.flips + 1, iters := s.iters + 1 }
+          simp only at this; omega
+
+/-- sharp form: every iteration consumes one queue item and only a flip adds items (at most `E`),
+and there are at most `maxFlips + 1` flips (`loop_flips_bounded`), so an attempt makes at most
+`q0 + (maxFlips + 1)·E` iterations — for ANY fuel and ANY predicate behaviour -/
+theorem attempt_iters_le_sharp (maxFlips E q0 : Nat) (choice : Nat → Option Nat) (fuel : Nat) :
+    (finalSt (loop maxFlips E choice fuel ⟨q0, 0, 0⟩)).iters ≤ q0 + (maxFlips + 1) * E := by
+  have hp := loop_iters_queue_potential maxFlips E choice fuel ⟨q0, 0, 0⟩
+  have hf := loop_flips_bounded maxFlips E choice fuel ⟨q0, 0, 0⟩ (Nat.zero_le _)
+  have hm := Nat.mul_le_mul_right E hf
+  simp only [Nat.zero_mul, Nat.add_zero, Nat.zero_add] at hp
+  omega
+
+/-- the form used by `workBound`: at most `q0 + (maxFlips + 1)·(E + 1)` iterations (no `+ 1`) -/
+theorem attempt_iters_le' (maxFlips E q0 : Nat) (choice : Nat → Option Nat) (fuel : Nat) :
+    (finalSt (loop maxFlips E choice fuel ⟨q0, 0, 0⟩)).iters ≤ q0 + (maxFlips + 1) * (E + 1) := by
+  have h := attempt_iters_le_sharp maxFlips E q0 choice fuel
+  have : (maxFlips + 1) * E ≤ (maxFlips + 1) * (E + 1) := Nat.mul_le_mul_left _ (Nat.le_succ E)
+  omega
+
+/-- `workBound` is, by definition, six attempts of `q0 + (b + 1)(e + 1)` iterations at
+`evalsPerItem` evaluations each, plus six postcondition sweeps of `2(D + 1)` evaluations per cell -/
+theorem workBound_covers_attempts (D cells : Nat) (debug : Bool) :
+    6 * evalsPerItem D *
+        (cells * itemsPerCell D
+          + (defaultMaxFlips D cells debug + 1) * ((if D ≤ 2 then 2 else D + 2) * itemsPerCell D + 1))
+      + 6 * 2 * (D + 1) * cells
+      = workBound D cells debug := rfl
+
+/-- iterations of one whole repair attempt of the library on a `D`-dimensional complex of `cells`
+cells: flip budget `defaultMaxFlips D cells debug`, per-flip enqueue cap
+`(new cells of a flip) × itemsPerCell D`, initial queue `q0`, run with `fuelFor` fuel -/
+def attemptIters (D cells : Nat) (debug : Bool) (q0 : Nat) (choice : Nat → Option Nat) : Nat :=
+  let b := defaultMaxFlips D cells debug
+  let e := (if D ≤ 2 then 2 else D + 2) * itemsPerCell D
+  (finalSt (loop b e choice (fuelFor b e ⟨q0, 0, 0⟩) ⟨q0, 0, 0⟩)).iters
+
+/-- one attempt whose initial queue holds at most every item of every cell costs at most a sixth
+of the attempt part of `workBound` -/
+theorem attempt_work_le (D cells : Nat) (debug : Bool) (q0 : Nat) (choice : Nat → Option Nat)
+    (hq : q0 ≤ cells * itemsPerCell D) :
+    evalsPerItem D * attemptIters D cells debug q0 choice
+      ≤ evalsPerItem D *
+          (cells * itemsPerCell D
+            + (defaultMaxFlips D cells debug + 1)
+                * ((if D ≤ 2 then 2 else D + 2) * itemsPerCell D + 1)) := by
+  apply Nat.mul_le_mul_left
+  unfold attemptIters
+  have h := attempt_iters_le' (defaultMaxFlips D cells debug)
+    ((if D ≤ 2 then 2 else D + 2) * itemsPerCell D) q0 choice
+    (fuelFor (defaultMaxFlips D cells debug) ((if D ≤ 2 then 2 else D + 2) * itemsPerCell D) ⟨q0, 0, 0⟩)
+  simp only at h ⊢
+  omega
+
+/-- a list of naturals each at most `B` sums to at most `length · B` -/
+theorem list_sum_le_length_mul (l : List Nat) (B : Nat) (h : ∀ x ∈ l, x ≤ B) :
+    l.sum ≤ l.length * B := by
+  induction l with
+  | nil => simp
+  | cons a t ih =>
+    have ha : a ≤ B := h a (List.mem_cons_self ..)
+    have ht := ih (fun x hx => h x (List.mem_cons_of_mem _ hx))
+    simp only [List.sum_cons, List.length_cons, Nat.add_mul, Nat.one_mul]
+    omega
+
+/-- THE WORK BOUND.  One public repair call makes at most six attempts.  Model each attempt by its
+initial queue length `a.1` (at most every item of every cell) and the behaviour of the predicates
+during it `a.2` (ANY function).  Then the in-sphere evaluations of all attempts together — each
+iteration costing at most `evalsPerItem D` — plus the six postcondition sweeps (`2(D + 1)`
+evaluations per cell each) are at most `workBound D cells debug`.  The sum over the attempts is a
+`List.sum` over a list of length ≤ 6 (core Lean has no `Finset` sum); `work_bounded_six` below is
+the same statement for a `Fin 6`-indexed family. -/
+theorem work_bounded (D cells : Nat) (debug : Bool) (attempts : List (Nat × (Nat → Option Nat)))
+    (hlen : attempts.length ≤ 6) (hq : ∀ a ∈ attempts, a.1 ≤ cells * itemsPerCell D) :
+    (attempts.map (fun a => evalsPerItem D * attemptIters D cells debug a.1 a.2)).sum
+        + 6 * 2 * (D + 1) * cells
+      ≤ workBound D cells debug := by
+  rw [← workBound_covers_attempts]
+  apply Nat.add_le_add_right
+  have hs := list_sum_le_length_mul
+    (attempts.map (fun a => evalsPerItem D * attemptIters D cells debug a.1 a.2))
+    (evalsPerItem D *
+      (cells * itemsPerCell D
+        + (defaultMaxFlips D cells debug + 1)
+            * ((if D ≤ 2 then 2 else D + 2) * itemsPerCell D + 1)))
+    (by
+      intro x hx
+      rcases List.mem_map.mp hx with ⟨a, ha, rfl⟩
+      exact attempt_work_le D cells debug a.1 a.2 (hq a ha))
+  rw [List.length_map] at hs
+  rw [Nat.mul_assoc]
+  exact Nat.le_trans hs (Nat.mul_le_mul_right _ hlen)
+
+/-- `work_bounded` for exactly six attempts, all started on the full queue, indexed by `Fin 6` -/
+theorem work_bounded_six (D cells : Nat) (debug : Bool) (choices : Fin 6 → Nat → Option Nat) :
+    evalsPerItem D * attemptIters D cells debug (cells * itemsPerCell D) (choices 0)
+      + evalsPerItem D * attemptIters D cells debug (cells * itemsPerCell D) (choices 1)
+      + evalsPerItem D * attemptIters D cells debug (cells * itemsPerCell D) (choices 2)
+      + evalsPerItem D * attemptIters D cells debug (cells * itemsPerCell D) (choices 3)
+      + evalsPerItem D * attemptIters D cells debug (cells * itemsPerCell D) (choices 4)
+      + evalsPerItem D * attemptIters D cells debug (cells * itemsPerCell D) (choices 5)
+      + 6 * 2 * (D + 1) * cells
+      ≤ workBound D cells debug := by
+  have h := work_bounded D cells debug
+    [(cells * itemsPerCell D, choices 0), (cells * itemsPerCell D, choices 1),
+     (cells * itemsPerCell D, choices 2), (cells * itemsPerCell D, choices 3),
+     (cells * itemsPerCell D, choices 4), (cells * itemsPerCell D, choices 5)]
+    (by simp) (by intro a ha; simp at ha; rcases ha with h | h | h | h | h | h <;> simp [h])
+  simp only [List.map_cons, List.map_nil, List.sum_cons, List.sum_nil] at h
+  omega
+
+/-- the work bound is monotone in the number of cells -/
+theorem workBound_mono (D cells cells' : Nat) (debug : Bool) (h : cells ≤ cells') :
+    workBound D cells debug ≤ workBound D cells' debug := by
+  have hb := defaultMaxFlips_mono D cells cells' debug h
+  unfold workBound
+  simp only
+  apply Nat.add_le_add
+  · apply Nat.mul_le_mul_left
+    apply Nat.add_le_add
+    · exact Nat.mul_le_mul_right _ h
+    · exact Nat.mul_le_mul_right _ (Nat.add_le_add_right hb 1)
+  · exact Nat.mul_le_mul_left _ h
+
+/-- non-vacuity: the concrete bounds the correspondence check uses -/
+example : workBound 2 69 true = 74604 := by decide
+example : workBound 3 30 true = 4120500 := by decide
+example : attemptIters 2 1 false 3 (fun _ => none) = 3 := by decide
+
 end DM.C19
